@@ -128,6 +128,15 @@ Step ==
        [] r.ev = "api" /\ r.call = "send" ->
             /\ acc' = IF r.err = "none" THEN [acc EXCEPT ![r.sock] = Append(@, [did |-> r.did, size |-> r.size, dst |-> r.dst, dport |-> r.dport, t |-> r.now, iplen |-> IF "iplen" \in DOMAIN r THEN r.iplen ELSE 0])] ELSE acc
             /\ UNCHANGED <<run, cfg, viol, hits, nruns, learned, lastDisc, wpos, rxq>>
+       [] r.ev = "api" /\ r.call = "addrs" ->
+            \* the address list was touched: the neighbour cache is flushed (the discovery rate limit is not)
+            /\ learned' = <<>>
+            /\ UNCHANGED <<run, cfg, viol, hits, nruns, lastDisc, acc, wpos, rxq>>
+       [] r.ev = "api" /\ r.call = "close" ->
+            \* a UDP socket closed and bound again: what was queued in either direction is gone
+            /\ acc' = [acc EXCEPT ![r.sock] = SubSeq(@, 1, wpos[r.sock])]
+            /\ rxq' = [rxq EXCEPT ![r.sock] = <<>>]
+            /\ UNCHANGED <<run, cfg, viol, hits, nruns, learned, lastDisc, wpos>>
        [] r.ev = "api" /\ r.call = "recv" ->
             LET s == r.sock
                 q == rxq[s]
